@@ -245,17 +245,7 @@ func OracleC07(w *World, h *History) {
 	// hold-back variant: the caller must not have waited for the peer
 	for _, e := range h.Evs {
 		if e.Kind == EvCheckpoint && e.S == "interest-stalled" {
-			// which operations of the cancelled RPC's caller are still pending?
-			onlySends := true
-			for _, o := range r.Ops {
-				if (o.Actor != "c" && o.Actor != "cr" && o.Actor != "cs") || o.Inv > e.Seq || (o.Returned() && o.Ret < e.Seq) {
-					continue
-				}
-				if o.Op != OpSend && o.Op != OpCloseSend {
-					onlySends = false
-				}
-			}
-			if onlySends && e.A == 1 {
+			if !interestBlockedOutsideTransport(e.S2) {
 				// the only thing the caller still waits for is the carrier's own
 				// Send (transport back-pressure), which gRPC gives no way to interrupt
 				h.Derived["probe.cancel_caller_blocked_in_transport_send"]++
@@ -344,6 +334,28 @@ func (w *World) DrainAndProbe2(mark string) {
 	simrt.AwaitStall()
 	simrt.Emit(simrt.Event{Kind: EvCheckpoint, S: mark})
 	w.ProbeTunnels(mark)
+}
+
+// interestBlockedOutsideTransport reports whether a goroutine of the RPC of
+// interest's caller is blocked anywhere other than in (or queueing for) the
+// carrier stream's Send.
+func interestBlockedOutsideTransport(stacks string) bool {
+	for _, g := range strings.Split(stacks, "\n\n") {
+		if !strings.Contains(g, "runInterestCaller") && !strings.Contains(g, "sim.interestSender") {
+			continue
+		}
+		if strings.Contains(g, "sim.(*Conn).clientSend") || strings.Contains(g, "sim.(*Conn).serverSend") {
+			continue // inside the carrier's Send: transport back-pressure
+		}
+		if strings.Contains(g, "grpctunnel.(*threadSafeOpen") && strings.Contains(g, "simsync.(*Mutex).Lock") {
+			continue // queueing for the carrier stream's send lock
+		}
+		if strings.Contains(g, "simrt.Recv[") && strings.Contains(g, "sim.(*World).RunCaller") && !strings.Contains(g, "sim.(*cstream)") {
+			continue // the caller goroutine waiting for its own sender goroutine
+		}
+		return true
+	}
+	return false
 }
 
 // callerBlockedOutsideCarrier reports whether some caller goroutine in the stack
